@@ -586,6 +586,8 @@ class C14(PropBase):
         op = case.get("op")
         if op == "bufw":
             return {k: v for k, v in case.items() if k not in ("kind", "what")}
+        if op == "sub":
+            return {"op": "sub", "cmd": case["cmd"], "existing": list(case.get("existing", []))}
         if op != "out":
             return None
         mode = case.get("mode", "files")
@@ -640,6 +642,13 @@ class C14(PropBase):
     def compare(self, case, impl, model):
         if model.get("r") != "OK" or impl.get("r") != "OK":
             return "driver problem: impl=%s model=%s %s %s" % (impl.get("r"), model.get("r"), impl.get("msg", ""), model.get("msg", ""))
+        if case["op"] == "sub":
+            # Model/SubCmd.lean: success flag, the files created, the pre-existing files changed
+            a = (impl["rc"] == 0, sorted(impl["created"]), sorted(impl["changed"]))
+            b = (bool(model["ok"]), sorted(model["created"]), sorted(model["changed"]))
+            if a != b:
+                return "sub-command %s: impl (ok, created, changed)=%s model=%s" % (case["cmd"], a, b)
+            return None
         if case["op"] == "bufw":
             a = (impl["ok"], impl["len"], impl["prefix"])
             b = (model["ok"], model["len"], model["prefix"])
